@@ -590,6 +590,7 @@ package main
 ; ============================ agent construction (C12 C16 C17 C18) ==================================
 
 (func "main.NewHooksCaller" (props C19) (noframe)
+  (callsite "(*main.HooksCaller).run" 0 (requires started-fresh (and (= (. $0 pending) 0) (= (. $0 dir) hooksDir) (= (. $0 store) storeDir))))
   (ensures returns-object (=> (= err nil) (not (isnil h)))))
 (func "main.runRemoteUpgrader" (props C12) (noframe))
 
@@ -631,4 +632,58 @@ package main
   (callsite "encoding/json.Marshal" 0
     (requires old-password-only (props C12) (and (= (. (boxed $0) Username) (. update username)) (= (. (boxed $0) OldPassword) (. update password))
                                      (= (. (boxed $0) NewPassword) "") (= (. (boxed $0) Session) "")))))
+*/
+
+/*@
+; ============================ update hooks (C19) ======================================================
+
+(func "main.runHook"
+  (props C19)
+  (noframe)
+  (callsite "os/exec.Command" 0 (requires exactly-update (and (= $0 executeable) (= (len $1) 1) (= (elem $1 0) "update"))))
+  (callsite "(*os/exec.Cmd).Start" 0
+    (requires store-in-environment (and (= (len (. $0 Env)) (+ (len (callresult "os.Environ" 0 0)) 1))
+        (= (elem (. $0 Env) (- (len (. $0 Env)) 1)) (str.++ "WHAWTY_AUTH_STORE=" store))))
+    (requires no-stdio (and (= (. $0 Stdin) nil) (= (. $0 Stdout) nil) (= (. $0 Stderr) nil)))
+    (requires that-executable (= (cmdname $0) executeable)))
+  (ensures started-exactly-once (= hook.started (store (old hook.started) executeable (+ 1 (select (old hook.started) executeable))))))
+
+(func "(*main.HooksCaller).runAllHooks"
+  (props C19)
+  (noframe)
+  (callsite "main.runHook" 0
+    (requires only-eligible-files (hookeligible (fi_name (local file)) (fi_mode (local file))))
+    (requires cleaned-path-inside-hooks-dir (= $0 (pjoin (. h dir) (pathclean (str.++ "/" (fi_name (local file)))))))
+    (requires current-store (= $1 (. h store)))
+    (requires directory-is-safe (and (called "io/fs.FileInfo.Mode" 0) (= (band1 (callresult "io/fs.FileInfo.Mode" 0 0) 2) 0)
+                                     (callresult "io/fs.FileInfo.IsDir" 0 0))))
+  (ensures never-fewer (forall ((p String)) (! (>= (select hook.started p) (select (old hook.started) p)) :pattern ((select hook.started p)))))
+  (ensures covers-notifications (= hk.uncovered (old hk.uncovered)))
+  (loop 0
+    (invariant index (and (<= -1 (local rangeindex)) (<= (local rangeindex) (- (len (local files)) 1))))
+    (invariant never-fewer (forall ((p String)) (! (>= (select hook.started p) (select (old hook.started) p)) :pattern ((select hook.started p)))))
+    (invariant eligible-were-started (forall ((j Int))
+        (! (=> (and (<= (off (local files)) j) (<= j (+ (off (local files)) (local rangeindex)))
+                    (hookeligible (fi_name (select (elemarr (local files)) j)) (fi_mode (select (elemarr (local files)) j))))
+               (> (select hook.started (pjoin (. h dir) (pathclean (str.++ "/" (fi_name (select (elemarr (local files)) j)))))) (select (old hook.started) (pjoin (. h dir) (pathclean (str.++ "/" (fi_name (select (elemarr (local files)) j))))))))
+           :pattern ((select (elemarr (local files)) j)))))))
+
+(func "(*main.HooksCaller).run"
+  (props C19)
+  (noframe)
+  (requires started-fresh (= (. h pending) 0))
+  (assume no-notification-received-before-the-loop-starts (= hk.uncovered 0))
+  (oncall "(*main.HooksCaller).runAllHooks" (set hk.uncovered 0))
+  (oncall "(*time.Timer).Reset" (set hk.armed true))
+  (onrecv "Notify" (set hk.uncovered (+ hk.uncovered 1)))
+  (onrecv "C" (set hk.armed false))
+  (callsite "(*main.HooksCaller).runAllHooks" 0 (requires trailing-round-only-when-more-arrived (> (. h pending) 1)))
+  (callsite "(*main.HooksCaller).runAllHooks" 1 (requires leading-round-on-first-notification (= (. h pending) 0)))
+  (callsite "(*time.Timer).Reset" 0 (requires rate-limit-interval (= $1 (. h rateLimit))))
+  (loop 0 (invariant nothing-runs-without-hooks-dir (= hook.started (old hook.started))))
+  (loop 1
+    (assume fewer-than-2^64-notifications-per-interval (< (. h pending) 18446744073709551615))
+    (invariant no-notification-left-uncovered (and (>= hk.uncovered 0)
+        (=> (> hk.uncovered 0) (and (> (. h pending) 1) hk.armed))
+        (=> (>= (. h pending) 1) hk.armed)))))
 */
